@@ -1,4 +1,5 @@
 """C10 — checks run in attachment order; overwrites feed later checks; abort stops them; transform/pipe."""
+import os, subprocess
 from . import common as C
 
 MANIFEST = dict(
@@ -7,7 +8,7 @@ MANIFEST = dict(
    note="Trusted: Lean kernel; axioms propext/Classical.choice/Quot.sound at most; Go harness + comparer; the classification of checks that do nothing on a raw pointer payload (vacU). Built-in check evaluations are not observable (only user callbacks are logged). Value threading over the whole callback log is false for pointer inputs with overwrites (the pointer pass after acceptance calls When guards on the un-overwritten payload): witness c10_first_pass_witness, open finding; c10_value_threading_partial states the excluded region. The defects of the code before 49e6e91 are kept as theorems about legacyRunChecksOn / legacyRunChecksC. Non-string pointer inputs with overwrites are not generated.",
    design="DESIGN.md §5 C10; notes/C10.md")
 
-MODULES = ["Gozod.Proofs.C10", "Gozod.Proofs.C10C", "Gozod.Proofs.C10G"]
+MODULES = ["Gozod.Proofs.C10", "Gozod.Proofs.C10C", "Gozod.Proofs.C10G", "Gozod.Proofs.C10Raw"]
 THEOREMS = ["Gozod.C10." + t for t in [
     "runChecks_post", "c10_value_threading", "c10_issue_order", "c10_first_failing", "c10_abort_stops",
     "c10_ok_iff_no_fail", "c10_ok_value", "firstPass_early", "c10_runOn_issues", "c10_runOn_ok_iff",
@@ -19,7 +20,8 @@ THEOREMS = ["Gozod.C10." + t for t in [
     "parsePipelineK_erase", "parsePipelineT_typed", "c10_pipeT_ok_iff", "c10_base_type_error",
     "firstPassG_cooked", "firstPassG_issues_ne_nil", "firstPassG_of_ok", "c10_generic_all", "c10_generic_ok_iff", "c10_generic_abort",
     "firstPassG_container", "runChecksG_container", "firstPassG_string", "runChecksG_string",
-    "c10_baseG_ok_iff", "c10_baseG_ok_value", "c10_baseG_type_error", "c10_pipeG_ok_iff", "c10_pipeG_first_fails", "c10_transformG_once"]]
+    "c10_baseG_ok_iff", "c10_baseG_ok_value", "c10_baseG_type_error", "c10_pipeG_ok_iff", "c10_pipeG_first_fails", "c10_transformG_once",
+    "c10_rawclass_expected", "c10_rawclass_total", "c10_rawclass_refany", "c10_rawclass_containers", "c10_rawclass_strings", "c10_rawclass_irrelevant"]]
 
 def key(op, impl, M, S):
     how = C.op_comment(op)
@@ -49,9 +51,44 @@ def describe(op):
             "with CustomParams, chk k abort when = Check(fn pushing issueCount k issues), ow k = Overwrite(custom k); values i<int> l<ints> o<a>:<b>; the schema names are in the op comment. "
             "c10shape <func>: go/ast statement skeleton of internal/engine/{checker,parser}.go vs lean/Gozod/Model/ChecksShape.lean")
 
+GEN_RAW = os.path.join(C.LEAN, "Gozod", "Gen", "RawClass.lean")
+
+def translate(res):
+    """Regenerate Gen/RawClass.lean: what every (schema type, check kind) does with the raw pointer payload of
+    validatePointer's pass over the pointer, probed through the public API of REPO (written only when changed)."""
+    ok, out = C.build_harness("C10")
+    if not ok:
+        return "harness does not build against the current tree:\n" + out[-3000:]
+    before = open(GEN_RAW).read() if os.path.exists(GEN_RAW) else ""
+    rc, out = C.run([C.harness_bin("C10"), "-out", C.BUILD, "-gen-rawclass", GEN_RAW], env=C.goenv(), timeout=300)
+    if rc != 0:
+        return "translator failed (rc=%d): %s" % (rc, out[-2000:])
+    if open(GEN_RAW).read() != before:
+        res.notes.append("lean/Gozod/Gen/RawClass.lean changed and was rewritten")
+    return ""
+
+def raw_offenders():
+    try:
+        p = subprocess.run([C.driver_bin("C10")], input="c10raw offenders\n", capture_output=True, text=True, timeout=120)
+        return p.stdout.strip()
+    except Exception as e:
+        return "(driver unavailable: %s)" % e
+
 def run(res):
+    with C.Lock("c10-gen"):
+        return _run(res)
+
+def _run(res):
+    err = translate(res)
+    if err:
+        C.tie_broken(res, "translator C10/RawClass", err)
+        return res.finish()
     ok, detail = C.prove(res, MODULES, THEOREMS)
     if not ok:
+        if "C10Raw" in detail or "c10_rawclass" in detail:
+            C.lake_build(["driver_c10"])
+            detail = ("the raw-payload classification probed from the current tree differs from the expectation in Model/RawClassSpec.lean:\n  "
+                      + raw_offenders().replace(" ; ", "\n  ") + "\n\n" + detail)
         C.tie_broken(res, "proof Gozod.Proofs.C10", detail)
     data, err = C.correspond(res, "C10", extra_args=["-repo", C.REPO], feed_impl=True)
     if data is None:
